@@ -22,6 +22,11 @@ DEFAULT_EXCLUDED_CODEMODS = [
 ]
 
 
+def _wildcard_pattern(name: str) -> re.Pattern:
+    """Compile a codemod id pattern where `*` is the only wildcard character."""
+    return re.compile(".*".join(re.escape(part) for part in name.split("*")))
+
+
 @dataclass
 class CodemodCollection:
     """A collection of codemods that all share the same origin and documentation."""
@@ -80,7 +85,7 @@ class CodemodRegistry:
         if codemod_exclude and not codemod_include:
             base_codemods = {}
             patterns = [
-                re.compile(exclude.replace("*", ".*"))
+                _wildcard_pattern(exclude)
                 for exclude in codemod_exclude
                 if "*" in exclude
             ]
@@ -88,7 +93,7 @@ class CodemodRegistry:
 
             for codemod in self.codemods:
                 if codemod.id in names or any(
-                    pat.match(codemod.id) for pat in patterns
+                    pat.fullmatch(codemod.id) for pat in patterns
                 ):
                     continue
 
@@ -98,12 +103,16 @@ class CodemodRegistry:
             # Remove duplicates and preserve order
             return list(base_codemods.values())
 
-        matched_codemods = []
+        # Each codemod runs at most once: keep the first occurrence, in the order given
+        matched_codemods: dict[str, BaseCodemod] = {}
         for name in codemod_include:
             if "*" in name:
-                pat = re.compile(name.replace("*", ".*"))
-                pattern_matches = [code for code in self.codemods if pat.match(code.id)]
-                matched_codemods.extend(pattern_matches)
+                pat = _wildcard_pattern(name)
+                pattern_matches = [
+                    code for code in self.codemods if pat.fullmatch(code.id)
+                ]
+                for code in pattern_matches:
+                    matched_codemods.setdefault(code.id, code)
                 if not pattern_matches:
                     logger.warning(
                         "Given codemod pattern '%s' does not match any codemods.", name
@@ -111,10 +120,10 @@ class CodemodRegistry:
                 continue
 
             try:
-                matched_codemods.append(self._codemods_by_id[name])
+                matched_codemods.setdefault(name, self._codemods_by_id[name])
             except KeyError:
                 logger.warning(f"Requested codemod to include '{name}' does not exist.")
-        return matched_codemods
+        return list(matched_codemods.values())
 
     def describe_codemods(
         self,
